@@ -141,7 +141,14 @@ int serve(Ctx &cx, bool silent) {
       if (q.name.size() > 2 && q.type != T_PTR) cx.n_search++;
       if (!cx.base_freed) CHECK(r.issued, "C34/query-for-failed-request", "query for r%d whose resolve call returned NULL", o); }
     qs.push_back(q); }
-  if (!cx.base_freed) check_ids(cx);
+  // transaction IDs: two different live requests whose queries arrived in the same batch (i.e. both were transmitted since the last
+  // look) must not carry the same ID.  (Comparing against IDs remembered from earlier batches would be unsound: an ID is free again
+  // as soon as its request is done, which the fake servers cannot see.)
+  if (!cx.base_freed) { std::map<int, int> seen;
+    for (size_t n = 0; n < qs.size(); n++) { int o = owner_of(qs[n]); if (o < 0 || o >= cx.nreq) continue; R &r = cx.r[o]; if (!r.live() || r.cancel_called) continue;
+      int slot = qs[n].type == T_AAAA && r.kind == K_GAI ? 1 : 0; int who = o * 2 + slot; auto it2 = seen.find(qs[n].id);
+      if (it2 != seen.end() && it2->second != who) VERIF_FAIL("C34/duplicate-transaction-id", "requests r%d and r%d, both in flight, use transaction ID 0x%04x", it2->second / 2, o, qs[n].id);
+      seen[qs[n].id] = who; } }
   for (size_t n = 0; n < items.size(); n++) { Item &it = items[n]; Query &q = qs[n]; handled++;
     if (silent) continue;
     int act = s.below(10);   // 0 answer 1 NXDOMAIN 2 drop 3 SERVFAIL 4 REFUSED 5 NOTIMPL 6 TC 7 garbage 8 late answer 9 answer
